@@ -1336,7 +1336,7 @@ mod expression_parser {
                 body: Box::new(body),
               });
             } else {
-              let tuple_elements = parameters_or_tuple_elements_cover
+              let mut tuple_elements = parameters_or_tuple_elements_cover
                 .into_iter()
                 .map(|name| {
                   expr::E::LocalId(
@@ -1349,6 +1349,10 @@ mod expression_parser {
                   )
                 })
                 .collect_vec();
+              if tuple_elements.len() == 1 {
+                // `(a,)` is a parenthesized expression like `(1,)`, not a tuple of one element.
+                return tuple_elements.pop().unwrap();
+              }
               let loc = peeked_loc.union(&right_parenthesis_loc);
               return expr::E::Tuple(
                 expr::ExpressionCommon {
@@ -1639,7 +1643,10 @@ mod expression_parser {
     expressions.truncate(MAX_STRUCT_SIZE);
     let (end_loc, end_comments) = parser.assert_and_consume_operator(TokenOp::RightParenthesis);
     let loc = start_loc.union(&end_loc);
-    debug_assert!(expressions.len() > 1);
+    if expressions.len() == 1 {
+      // `(a,)` is a parenthesized expression like `(1,)`, not a tuple of one element.
+      return expressions.pop().unwrap();
+    }
     expr::E::Tuple(
       expr::ExpressionCommon { loc, associated_comments: NO_COMMENT_REFERENCE, type_: () },
       expr::ParenthesizedExpressionList {
